@@ -205,7 +205,7 @@ def gen_case(rng):
         if mal and mal != 'mixed':
             case['rxns'][rng.randrange(len(rxns))] = rx(mal)
         singles = [i for i, p in enumerate(parts) if p[0] == 'single']
-        if singles and rng.random() < 0.12:
+        if singles and rng.random() < 0.25:
             case['post_rebase'] = [rng.choice(singles), 'wt' if basis == 'mol' else 'mol']
     # material
     P = max(1, len(phases))
@@ -300,7 +300,13 @@ HIST = {'phases': [], 'kind': 'parallel',
                     ['itembackwards', 0, None, None], ['backwards', 0, 'Ce', 0.5]]}
 HIST_SERIES = dict(HIST, kind='series')
 
-CORPUS = [HIST, HIST_SERIES, window_case(50), window_case(41), window_case(40), window_case(39), window_case(30), window_case(41, two=True),
+MIXED = {'phases': [], 'kind': 'system', 'rxns': HIST['rxns'], 'parts': [['single', [0]], ['single', [1]]],
+         'post_rebase': [1, 'wt'], 'material': {'kind': 'stream', 'flows': [4.0, 0.0, 256.0, 0.0, 1.0, 8.0, 0.0, 0.0]}}
+MIXED_WT = {'phases': [], 'kind': 'system', 'rxns': [dict(r, rebase='wt') for r in HIST['rxns']],
+            'parts': [['parallel', [0]], ['single', [1]]], 'post_rebase': [1, 'mol'],
+            'material': {'kind': 'stream', 'flows': [4.0, 0.0, 256.0, 0.0, 1.0, 8.0, 0.0, 0.0]}}
+
+CORPUS = [HIST, HIST_SERIES, MIXED, MIXED_WT, window_case(50), window_case(41), window_case(40), window_case(39), window_case(30), window_case(41, two=True),
           window_case(42, two=True), window_case(45, basis='wt'), window_case(41, basis='wt'),
           WIT_MULTI, SPARSE2, OTHER_MULTI]
 WITNESSES = [{'key': 'C05:phaseless-reaction-on-multistream', 'case': WIT_MULTI}]
@@ -666,7 +672,7 @@ def oracle(case):
     rs = reference(case)
     if rs is None: return None                      # a constructor error is the expected outcome
     if case['kind'] != 'single' and len({(s['rebase'] or s['basis']) for s in case['rxns']}) > 1: return None
-    if case.get('post_rebase'): return None         # a RuntimeError is the documented outcome
+    mixed = case.get('post_rebase')               # a member re-based after construction: RuntimeError is the documented outcome
     log = {}
     try:
         obj = build_obj(case, log)
@@ -725,6 +731,7 @@ def oracle(case):
     neg = sum(float(x) * (MW[k % N] if acts_on_mass else 1) for k, x in enumerate(expect) if x < 0)
     if err is not None:
         name = type(err).__name__
+        if mixed and name == 'RuntimeError': return None
         if name == 'InfeasibleRegion':
             if neg < -1e-13: return None
             return f'infeasible: InfeasibleRegion raised although no flow would become negative (sum of negatives {neg})'
@@ -748,6 +755,11 @@ def oracle(case):
                 if i in IDS: gotA[p * N + IDS.index(i)] = got[p * nB + j]
         got = gotA
     exp = [max(float(x), 0.0) for x in expect]
+    if mixed and kind in ('numpy', 'sparse', 'numpylen'):
+        exp = got            # no single basis to interpret the array in; conservation below still applies
+    if mixed and not close(got, exp):
+        return (f'mixed-basis: ReactionSystem (by {basis}) whose member {mixed[0]} was switched to {mixed[1]} neither raised nor '
+                f'reacted correctly: flows {got}, expected {exp}')
     if not close(got, exp):
         if kind == 'sparse' and ph and close(got, [float(x) for x in molA]) and not close(exp, [float(x) for x in molA]):
             return 'sparse-array: bare SparseArray passed to a phase-tagged reaction is returned unreacted'
@@ -765,7 +777,7 @@ def oracle(case):
         if abs(np.dot(MW, ta) - np.dot(MW, tb)) > 1e-9 * scale * 64:
             return f'mass: total mass changed from {np.dot(MW, tb)} to {np.dot(MW, ta)}'
     # both bases give the same result on a stream
-    if kind == 'stream':
+    if kind == 'stream' and not mixed:
         other = 'wt' if basis == 'mol' else 'mol'
         alt = dict(case, rxns=[dict(s, rebase=(None if s['basis'] == other else other)) for s in case['rxns']])
         try:
